@@ -1,4 +1,6 @@
 """C12 — Expansion cutoff never shrinks and keeps headroom."""
+from checks import pure_fns
+from checks import extra_audits
 LEAN_TARGETS = ["QmcProps.C12", "drv_c12"]
 BINS = ["c12"]
 
@@ -34,6 +36,8 @@ RULE = ("random TFIM graphs (2..6 spins, chain/ring/chord, J of both signs, dyad
 
 
 def main(ck):
+    extra_audits.run(ck)
+    pure_fns.run(ck)   # source->Lean translation of pure functions, re-proved equal to the hand model
     if ck.lake_build(LEAN_TARGETS):
         ck.audit("QmcProps.C12", ["Qmc.C12." + t for t in THEOREMS])
     if ck.cargo_build(BINS):
